@@ -121,7 +121,7 @@ check(
 check(
     "C10",
     "exploration",
-    "Generated programs of repeated/interleaved calendar-queries, writes, deletes and restarts on calendars that include multi-component resources and unparseable stored files, executed against four servers that differ only in index_threshold (0, 1, default, never) and, at the store level, on tree-git, bare-git and vdir stores; all configurations must return identical name sets at every query (differential + metamorphic, independent of RFC correctness).",
+    "Generated programs of repeated/interleaved calendar-queries, writes, deletes and restarts on calendars that include multi-component resources and unparseable stored files, executed against four servers that differ only in index_threshold (0, 1, default, never) and, at the store level, on tree-git, bare-git and vdir stores; all configurations must return identical name sets and serve identical data for each name at every query (differential + metamorphic, independent of RFC correctness).",
     "Trusted: the never-indexing configuration as 'fresh store' reference. Known finding K5 (per-file index mixes the values of several components of one type) is recognised by an exact structural signature and counted.",
     "differential/metamorphic stateful property testing across index-threshold configurations",
     "DESIGN.md section 3 C10",
